@@ -479,6 +479,24 @@ def tree_equal(a, b):
     return type(a) is type(b) and a == b
 
 
+def number_kind_diff(a, b, path=()):
+    """For two trees that are tree_equal: the first numeric argument *of a gate application* that is an int in one tree and a
+    float in the other (Jaqal tells the two apart: an integer parameter refuses 2.0, generated text reads `2` or `2.0`).
+    Counts and indices are integers however they were written, so they are not looked at."""
+    if not (isinstance(a, tuple) and isinstance(b, tuple)) or len(a) != len(b):
+        return None
+    if a and a[0] == "gate" and len(a) == 3 and isinstance(a[2], tuple) and isinstance(b[2], tuple):
+        for i, (x, y) in enumerate(zip(a[2], b[2])):
+            if isinstance(x, (int, float)) and isinstance(y, (int, float)) and type(x) is not type(y):
+                return (path + (2, i), "number-kind", repr(x), repr(y))
+        return None
+    for i, (x, y) in enumerate(zip(a, b)):
+        d = number_kind_diff(x, y, path + (i,))
+        if d:
+            return d
+    return None
+
+
 def first_diff(a, b, path=()):
     if isinstance(a, tuple) and isinstance(b, tuple):
         if len(a) != len(b):
